@@ -122,6 +122,13 @@ static struct nv_ostream* nv_ostream_write(struct nv_ostream* s, const char* src
   nv_nfields = nv_nfields + 1;
   if (s->fail || n < 0) { s->fail = 1; return s; }
   if (nv_nondet__Bool() || s->pos > NV_MAXLEN - n) { s->fail = 1; return s; }
+#ifdef NV_ROUNDTRIP
+  /* round-trip targets (write, then read the same buffer back): the bytes appended here DEFINE the content function the reader
+   * will see at these offsets (std::stringstream: ostream::write followed by istream::read returns the same bytes).  Offsets
+   * strictly increase, so no two definitions meet; the harness canary guards against a contradictory set. */
+  if (n == 4) __CPROVER_assume(NV_LE32(s, s->pos) == *(const uint32_t*)src);
+  else if (n == 8) __CPROVER_assume(NV_LE64(s, s->pos) == *(const uint64_t*)src);
+#endif
   s->pos = s->pos + n;
   return s;
 }
